@@ -279,13 +279,93 @@ def processBdReq (cfg : Cfg) (req : Req) (ext : Ext) : BdRes :=
   | .ok h => .ok (subnetOverride cfg req ext h)
   | e => e
 
-/-- the wrapper published to the stations (the fields the registrar decides) -/
-structure Fwd where
-  source : Nat
-  addr : Option String
-  resp : Option Resp        -- RegistrationResponse
-  signed : Option Resp      -- RegRespBytes (decoded) with a valid RegRespSignature; none = both absent
+/-! ### the wrapper published to the stations
+
+`processC2SWrapper` builds the message it forwards in a local variable, assigns some of its fields and
+marshals it.  *Which* message it starts from and *which* fields it assigns are facts about the source
+text, extracted on every run (go/ast) into `CJ/Gen/C12Wrapper.lean` as a `WrapperFacts` value; the model
+is a function of these facts, so a wrapper that starts as a copy of the client's message (and therefore
+carries whatever the client put into the fields that are not overwritten) is a different model. -/
+
+/-- fields of `pb.C2SWrapper` -/
+inductive WField
+  | sharedSecret | registrationPayload | registrationSource | registrationAddress | decoyAddress
+  | registrationResponse | regRespBytes | regRespSignature
+  | other (name : String)
 deriving DecidableEq, Repr, Inhabited
+
+/-- what the forwarded wrapper starts from -/
+inductive WBase
+  /-- `&pb.C2SWrapper{k: …}` / `new(pb.C2SWrapper)`: an empty message, except for the keyed fields -/
+  | fresh (keys : List WField)
+  /-- any other expression (a clone of the client's wrapper, the client's wrapper itself, …) -/
+  | derived (expr : String)
+deriving DecidableEq, Repr, Inhabited
+
+/-- one assignment `payload.F = e` in `processC2SWrapper` -/
+structure WAssign where
+  field : WField
+  /-- lexically inside an `if` / `for` / `switch` … -/
+  guarded : Bool
+  /-- fields of the *client's* wrapper the assigned value is computed from (through local variables) -/
+  reads : List WField
+deriving DecidableEq, Repr, Inhabited
+
+structure WrapperFacts where
+  base : WBase
+  assigns : List WAssign
+  /-- fields assigned on every path that reaches the final `proto.Marshal` -/
+  always : List WField
+  /-- every other use of the wrapper variable (passed to a function, re-assigned, aliased, …) -/
+  otherUses : List String
+deriving DecidableEq, Repr, Inhabited
+
+/-- does the wrapper start with the client's value in field `f`? -/
+def WrapperFacts.fromClient (w : WrapperFacts) (f : WField) : Bool :=
+  match w.base with
+  | .fresh keys => keys.contains f
+  | .derived _ => true
+
+def WrapperFacts.assigned (w : WrapperFacts) (f : WField) : Bool := w.assigns.any (·.field == f)
+
+/-- **The wrapper is rebuilt field by field**: nothing the client put into RegRespBytes / RegRespSignature
+can reach the forwarded message (the message starts without them, no assignment computes a value from
+them, the message is not handed to anything else), and the fields the stations need are always set. -/
+def WrapperFacts.discardsClientFields (w : WrapperFacts) : Bool :=
+  w.otherUses.isEmpty &&
+  !w.fromClient .regRespBytes && !w.fromClient .regRespSignature &&
+  w.assigns.all (fun a => !a.reads.contains .regRespBytes && !a.reads.contains .regRespSignature) &&
+  (w.always.contains .registrationResponse || w.fromClient .registrationResponse) &&
+  (w.always.contains .sharedSecret || w.fromClient .sharedSecret) &&
+  (w.always.contains .registrationPayload || w.fromClient .registrationPayload) &&
+  w.assigned .regRespBytes && w.assigned .regRespSignature
+
+/-- RegRespBytes / RegRespSignature of a wrapper: absent, what the registrar computes from a response
+(`proto.Marshal r`, `ed25519.Sign (privkey, proto.Marshal r)`), or bytes supplied by the client -/
+inductive Signed
+  | absent
+  | registrar (r : Resp)
+  | client (raw : String)
+deriving DecidableEq, Repr, Inhabited
+
+def clientSigned (raw : String) : Signed := if raw == "" then .absent else .client raw
+
+/-- the wrapper published to the stations -/
+structure Fwd where
+  source : Nat := 0                -- RegistrationSource, 0 = unspecified / absent
+  addr : Option String := none     -- RegistrationAddress
+  resp : Option Resp := none       -- RegistrationResponse
+  respBytes : Signed := .absent    -- RegRespBytes
+  respSig : Signed := .absent      -- RegRespSignature
+  secretKept : Bool := false       -- SharedSecret is the client's
+  payloadKept : Bool := false      -- RegistrationPayload is the client's
+deriving DecidableEq, Repr, Inhabited
+
+/-- RegRespBytes decoded, if RegRespSignature is the registrar's signature over it -/
+def Fwd.signed (f : Fwd) : Option Resp :=
+  match f.respBytes, f.respSig with
+  | .registrar r, .registrar r' => if r = r' then some r else none
+  | _, _ => none
 
 inductive Outcome
   | err (kind : String)
@@ -293,51 +373,133 @@ inductive Outcome
   | ok (client : Resp) (fwd : Fwd)
 deriving DecidableEq, Repr, Inhabited
 
-/-- `processC2SWrapper`: a fresh wrapper is filled field by field; nothing else is copied -/
-def processC2SWrapper (cfg : Cfg) (req : Req) (wresp : Option Resp) (regMethod : Nat) (clientAddr : Option String) :
-    Option Fwd :=
-  if req.secretLen < 8 then none else
-  some {
-    source := if req.source == 0 then regMethod else req.source
-    addr := if (req.regAddr.isNone || req.source == regMethod) && clientAddr.isSome then clientAddr else req.regAddr
-    resp := wresp
-    signed := if cfg.authenticated then wresp else none }
+/-- the message `processC2SWrapper` starts from; `cresp` = `c2sPayload.RegistrationResponse` at this point -/
+def wrapperStart (w : WrapperFacts) (req : Req) (cresp : Option Resp) : Fwd :=
+  { source := if w.fromClient .registrationSource then req.source else 0
+    addr := if w.fromClient .registrationAddress then req.regAddr else none
+    resp := if w.fromClient .registrationResponse then cresp else none
+    respBytes := if w.fromClient .regRespBytes then clientSigned req.forgedBytes else .absent
+    respSig := if w.fromClient .regRespSignature then clientSigned req.forgedSig else .absent
+    secretKept := w.fromClient .sharedSecret
+    payloadKept := w.fromClient .registrationPayload }
 
-def registerBidirectional (cfg : Cfg) (req : Req) (ext : Ext) (regMethod : Nat) (clientAddr : Option String) : Outcome :=
-  -- the client is not allowed to set the response: clear it
+/-- `processC2SWrapper`: the start message with the assignments of the code applied -/
+def processC2SWrapper (w : WrapperFacts) (cfg : Cfg) (req : Req) (cresp : Option Resp) (regMethod : Nat)
+    (clientAddr : Option String) : Option Fwd :=
+  if req.secretLen < 8 then none else
+  let b := wrapperStart w req cresp
+  some {
+    source := if w.always.contains .registrationSource then (if req.source == 0 then regMethod else req.source) else b.source
+    addr := if w.always.contains .registrationAddress then
+        (if (req.regAddr.isNone || req.source == regMethod) && clientAddr.isSome then clientAddr else req.regAddr)
+      else b.addr
+    resp := if w.always.contains .registrationResponse then cresp else b.resp
+    -- `if p.authenticated && c2sPayload.GetRegistrationResponse() != nil { … }`
+    respBytes := match w.assigned .regRespBytes && cfg.authenticated, cresp with
+      | true, some r => .registrar r
+      | _, _ => b.respBytes
+    respSig := match w.assigned .regRespSignature && cfg.authenticated, cresp with
+      | true, some r => .registrar r
+      | _, _ => b.respSig
+    secretKept := w.always.contains .sharedSecret || b.secretKept
+    payloadKept := w.always.contains .registrationPayload || b.payloadKept }
+
+def registerBidirectional (w : WrapperFacts) (cfg : Cfg) (req : Req) (ext : Ext) (regMethod : Nat)
+    (clientAddr : Option String) : Outcome :=
+  -- the client is not allowed to set the response: clear it (the field is then set by `processBdReq`
+  -- before anything reads it, which is what the fresh `Heap` of `preStage` says)
   let req := { req with forgedResp := none }
   match processBdReq cfg req ext with
   | .err k => .err k
   | .panic w => .panic w
   | .ok h =>
-    match processC2SWrapper cfg req (h.wp.map h.get) regMethod clientAddr with
+    match processC2SWrapper w cfg req (h.wp.map h.get) regMethod clientAddr with
     | none => .err "secret"
     | some f => if ext.sendOk then .ok (h.get h.rp) f else .err "send"
 
-/-! ### the station's use of the forwarded response (`NewRegistrationC2SWrapper`) -/
+/-! ### the station's use of the forwarded response (`NewRegistrationC2SWrapper`, one address family) -/
 
-structure StationView where
-  phantom4 : Option Nat
-  phantom6 : Option String
-  port : Nat
-  params : Option Params
-deriving DecidableEq, Repr
+/-- how Go's `net.IP` methods see an address given by its bytes (hex): `To16() == nil` (neither 4 nor 16
+bytes), `To4() != nil` (4 bytes or IPv4-mapped), or a proper IPv6 address -/
+inductive IPKind | invalid | v4 | v6
+deriving DecidableEq, Repr, Inhabited
 
-/-- `derived4/6`, `derivedPort`: what the station computes on its own from the registration; the
-response overrides the port if present, the address if present (IPv4: and non-zero) and the
-parameters if present and allowed. -/
-def stationApply (disable : Bool) (clientParams : Option Params) (derived4 : Nat) (derived6 : String)
-    (derivedPort : Nat) (rr : Option Resp) : StationView :=
+def ipKind (hex : String) : IPKind :=
+  if hex.length == 8 then .v4
+  else if hex.length == 32 then (if hex.startsWith "00000000000000000000ffff" then .v4 else .v6)
+  else .invalid
+
+/-- a phantom address as the station stores it -/
+inductive Addr
+  | v4 (a : Nat)          -- the 4 bytes built from `rr.Ipv4Addr`
+  | raw (hex : String)    -- bytes taken as they are (`rr.Ipv6Addr`, or what the station's selector gave)
+deriving DecidableEq, Repr, Inhabited
+
+def Addr.kind : Addr → IPKind
+  | .v4 _ => .v4
+  | .raw h => ipKind h
+
+/-- what the station derives on its own (`NewRegistration`: selector, parameter parsing, port) for given
+transport parameters — a parameter of the model, supplied per case from the real function -/
+inductive Derived
+  | fail
+  | ok (phantom : Addr) (port : Nat)
+deriving DecidableEq, Repr, Inhabited
+
+inductive StationOut
+  | reject (why : String)
+  | ok (phantom : Addr) (port : Nat) (params : Option Params)
+deriving DecidableEq, Repr, Inhabited
+
+/-- are the response's transport parameters applied? (`rr.GetTransportParams() != nil &&
+!c2s.GetDisableRegistrarOverrides()`) -/
+def stationUsesRespParams (disable : Bool) (rr : Option Resp) : Bool :=
   match rr with
-  | none => ⟨some derived4, some derived6, derivedPort, clientParams⟩
-  | some r =>
-    { phantom4 := match r.v4 with | some a => if a != 0 then some a else some derived4 | none => some derived4
-      phantom6 := match r.v6 with | some a => some a | none => some derived6
-      port := r.port.getD derivedPort
-      params := if r.params.isSome && !disable then r.params else clientParams }
+  | some r => r.params.isSome && !disable
+  | none => false
+
+/-- the station's own derivation that applies: `dC` with the client's parameters, `dR` with the response's -/
+def stationDerived (disable : Bool) (dC dR : Derived) (rr : Option Resp) : Derived :=
+  if stationUsesRespParams disable rr then dR else dC
+
+/-- `NewRegistrationC2SWrapper (c2sw, includeV6)`: the response overrides the port if present, the address
+of the family being built if present (IPv4: and non-zero) and of that family, and the parameters if
+present and allowed; then the registrant's address is checked against the phantom. -/
+def stationApply (v6 disable : Bool) (clientParams : Option Params) (dC dR : Derived) (src : IPKind)
+    (rr : Option Resp) : StationOut :=
+  let params := match rr with
+    | some r => if r.params.isSome && !disable then r.params else clientParams
+    | none => clientParams
+  let ipOverride : Option Addr := match rr with
+    | none => none
+    | some r =>
+      if !v6 then (match r.v4 with | some a => if a != 0 then some (.v4 a) else none | none => none)
+      else r.v6.map .raw
+  match stationDerived disable dC dR rr with
+  | .fail => .reject "build"
+  | .ok dph dport =>
+    -- `ipOverride.To16() == nil || (ipOverride.To4() == nil) != includeV6`
+    let bad := match ipOverride with
+      | some o => o.kind == IPKind.invalid || ((o.kind != IPKind.v4) != v6)
+      | none => false
+    if bad then .reject "override" else
+    let ph := ipOverride.getD dph
+    if src == IPKind.invalid then .reject "regaddr" else
+    if ph.kind == IPKind.v4 && src != IPKind.v4 then .reject "family" else
+    let port := match rr with
+      | some r => (match r.port with | some p => p % 65536 | none => dport)    -- `uint16(dstPort)`
+      | none => dport
+    .ok ph port params
 
 /-- the parameters the client ends up using, by the same rule -/
 def clientParams (req : Req) (c : Resp) : Option Params :=
   if c.params.isSome && !req.disable then c.params else req.params
+
+/-- `RegisterUnidirectional`: the response is cleared, nothing is computed, the wrapper is forwarded -/
+def registerUnidirectional (w : WrapperFacts) (cfg : Cfg) (req : Req) (regMethod : Nat)
+    (clientAddr : Option String) (sendOk : Bool) : Option Fwd :=
+  match processC2SWrapper w cfg req none regMethod clientAddr with
+  | none => none
+  | some f => if sendOk then some f else none
 
 end CJ.Registrar
